@@ -66,6 +66,7 @@ class MNode:
         self.bufs = {}      # zip: parent -> [x]
         self.last = {}      # combine_latest: parent -> x
         self.emit_on = None  # combine_latest(emit_on=0): the parent whose updates trigger a tuple
+        self.literal = None  # zip(a, 123, b): (position, value) of the literal argument
         self.had_data = False
 
 
@@ -187,7 +188,10 @@ class Topo:
         while self.zip_ready(c) and (r_obs is None or k < r_obs):
             heads = [m.bufs[p].pop(0) for p in m.parents]
             k += 1
-            self.m_emit(c, tuple(h[0] for h in heads), [i_ for h in heads for i_ in h[1]])
+            vals = [h[0] for h in heads]
+            if m.literal is not None:
+                vals.insert(m.literal[0], m.literal[1])
+            self.m_emit(c, tuple(vals), [i_ for h in heads for i_ in h[1]])
         return k
 
     def observed_zip(self, z):
@@ -257,7 +261,13 @@ class Topo:
             elif kind == "union":
                 s = score.union(*ups)
             elif kind == "zip":
-                s = score.zip(*ups)
+                if i % 4 == 2:
+                    # a literal among the arguments keeps its position in every tuple, whatever
+                    # is connected or disconnected later
+                    s = score.zip(ups[0], 123, *ups[1:])
+                    m.literal = (1, 123)
+                else:
+                    s = score.zip(*ups)
             elif kind == "combine_latest":
                 if i % 3 == 1 and len(ups) >= 2:
                     # emit_on given as an index: tuples only on updates of that input, also
